@@ -76,6 +76,25 @@ def knownRacy : List Racy := [
   ⟨N.«headerfs.headerFile.file», N.«headerfs.headerFile.truncateHeaders», N.«headerfs.blockHeaderStore.readHeaderRange»⟩,
   ⟨N.«headerfs.headerFile.file», N.«headerfs.headerFile.truncateHeaders», N.«headerfs.filterHeaderStore.readHeaderRange»⟩]
 
-def tables : Tables := ⟨owners, callerHolds, lockAlias, knownRacy⟩
+/-- The per-response callbacks handed to the work manager, as reviewed (the extracted list must equal this one:
+`C18_callbacks_reviewed`).  `true` = the query consists of several requests, so the callback runs on several worker
+goroutines at once and every write it makes needs a mutex; `false` = single-request query. -/
+def reviewedCallbacks : List Callback := [
+  -- one request per pair of checkpoint intervals (`requests()` builds them in a loop): answered by different peers
+  ⟨N.«checkpointedCFHeadersQuery.handleResponse», true⟩,
+  -- GetCFilter issues `[]*query.Request{filterQuery.request()}`: one request, whose handler accepts many cfilter messages
+  ⟨N.«cfiltersQuery.handleResponse», false⟩,
+  -- GetBlock issues one getdata request
+  ⟨N.«ChainService.GetBlock$handleResp», false⟩]
+
+def rVerdict := "the reader runs only after it has received the nil verdict of the query from errChan; the dispatcher sends that verdict after it has received the worker's result for the (single) job, and the worker reports after its last callback invocation: callback -> result -> verdict -> read"
+
+/-- Conflicting pairs ordered by channel communication rather than by a mutex (reviewed). -/
+def ordered : List Ordered := [
+  ⟨N.«cfiltersQuery.targetFilter», N.«cfiltersQuery.handleResponse», N.«ChainService.GetCFilter», rVerdict⟩,
+  ⟨N.«cfiltersQuery.headerIndex», N.«cfiltersQuery.handleResponse», N.«ChainService.GetCFilter», rVerdict⟩,
+  ⟨N.«ChainService.GetBlock.foundBlock», N.«ChainService.GetBlock$handleResp», N.«ChainService.GetBlock», rVerdict⟩]
+
+def tables : Tables := ⟨owners, callerHolds, lockAlias, knownRacy, ordered⟩
 
 end Neutrino.Lockset
